@@ -34,13 +34,18 @@ MatchesOp(cfg, p) == p \in cfg.matching
 SupportedOp(cfg) == TRUE
 V == INSTANCE Vanity WITH Matches <- MatchesOp, Supported <- SupportedOp
 
-VARIABLES cfg, main, wst, cand, chan, out, obs, nreq, granted, guardOk
-vars == <<cfg, main, wst, cand, chan, out, obs, nreq, granted, guardOk>>
+VARIABLES cfg, main, wst, cand, chan, out, obs, nreq, granted, guardOk,
+          hist       \* history: the environment's answers so far, [t, ok, p] (what the shim would log); the generator
+                     \* Gen_C18sched turns each complete behaviour into a schedule for the real binary
+vars == <<cfg, main, wst, cand, chan, out, obs, nreq, granted, guardOk, hist>>
+\* the model checks hide the history variable (it multiplies states without adding behaviour)
+ViewNoHist == <<cfg, main, wst, cand, chan, out, obs, nreq, granted, guardOk>>
+Ans(t, ok, p) == [t |-> t, ok |-> ok, p |-> p]
 
 Init ==
   /\ cfg \in {[vanity |-> TRUE, threads |-> N, matching |-> m] : m \in SUBSET (1..K)}
   /\ main = "init" /\ wst = [w \in Workers |-> "idle"] /\ cand = [t \in {MainT} \cup Workers |-> 0]
-  /\ chan = <<>> /\ out = 0 /\ obs = V!Init(cfg) /\ nreq = 0 /\ granted = {} /\ guardOk = TRUE
+  /\ chan = <<>> /\ out = 0 /\ obs = V!Init(cfg) /\ nreq = 0 /\ granted = {} /\ guardOk = TRUE /\ hist = <<>>
 
 \* main generates m0: the environment grants or refuses
 MainGrant(p) ==
@@ -49,26 +54,30 @@ MainGrant(p) ==
   /\ main' = IF N = 0 THEN "inline_run" ELSE "wait"
   /\ wst' = [w \in Workers |-> "run"]
   /\ obs' = V!MainGrant(cfg, obs, MainT, p) /\ nreq' = nreq + 1 /\ granted' = granted \cup {p}
+  /\ hist' = Append(hist, Ans(MainT, TRUE, p))
   /\ UNCHANGED <<cfg, chan, out, guardOk>>
 MainRefuse ==
   /\ main = "init" /\ main' = "failed" /\ obs' = V!MainRefuse(cfg, obs, MainT)
+  /\ hist' = Append(hist, Ans(MainT, FALSE, 0))
   /\ UNCHANGED <<cfg, wst, cand, chan, out, nreq, granted, guardOk>>
 
 \* N = 0: the worker loop inline on the main thread
 InlineCheck ==
   /\ main = "inline_run"
   /\ IF MatchesOp(cfg, cand[MainT]) THEN main' = "printed" /\ out' = cand[MainT] ELSE main' = "inline_req" /\ UNCHANGED out
-  /\ UNCHANGED <<cfg, wst, cand, chan, obs, nreq, granted, guardOk>>
+  /\ UNCHANGED <<cfg, wst, cand, chan, obs, nreq, granted, guardOk, hist>>
 InlineGrant(p) ==
   /\ main = "inline_req" /\ nreq < MaxReq
   /\ guardOk' = (guardOk /\ V!MayRequest(cfg, obs, MainT))
   /\ cand' = [cand EXCEPT ![MainT] = p] /\ main' = "inline_run"
   /\ obs' = V!WorkerGrant(cfg, obs, MainT, p) /\ nreq' = nreq + 1 /\ granted' = granted \cup {p}
+  /\ hist' = Append(hist, Ans(MainT, TRUE, p))
   /\ UNCHANGED <<cfg, wst, chan, out>>
 InlineRefuse ==
   /\ main = "inline_req"
   /\ guardOk' = (guardOk /\ V!MayRequest(cfg, obs, MainT))
   /\ main' = "failed" /\ obs' = V!WorkerRefuse(cfg, obs, MainT)
+  /\ hist' = Append(hist, Ans(MainT, FALSE, 0))
   /\ UNCHANGED <<cfg, wst, cand, chan, out, nreq, granted>>
 
 \* workers
@@ -76,31 +85,33 @@ Alive == main = "wait"                  \* exit of the main thread kills the wor
 WorkerCheck(w) ==
   /\ Alive /\ wst[w] = "run"
   /\ wst' = [wst EXCEPT ![w] = IF MatchesOp(cfg, cand[w]) THEN "matched" ELSE "req"]
-  /\ UNCHANGED <<cfg, main, cand, chan, out, obs, nreq, granted, guardOk>>
+  /\ UNCHANGED <<cfg, main, cand, chan, out, obs, nreq, granted, guardOk, hist>>
 WorkerSendOk(w) ==
   /\ Alive /\ wst[w] = "matched"
   /\ chan' = Append(chan, [ok |-> TRUE, p |-> cand[w]]) /\ wst' = [wst EXCEPT ![w] = "sent"]
-  /\ UNCHANGED <<cfg, main, cand, out, obs, nreq, granted, guardOk>>
+  /\ UNCHANGED <<cfg, main, cand, out, obs, nreq, granted, guardOk, hist>>
 EnvGrant(w, p) ==
   /\ Alive /\ wst[w] = "req" /\ nreq < MaxReq
   /\ guardOk' = (guardOk /\ V!MayRequest(cfg, obs, w))
   /\ cand' = [cand EXCEPT ![w] = p] /\ wst' = [wst EXCEPT ![w] = "run"]
   /\ obs' = V!WorkerGrant(cfg, obs, w, p) /\ nreq' = nreq + 1 /\ granted' = granted \cup {p}
+  /\ hist' = Append(hist, Ans(w, TRUE, p))
   /\ UNCHANGED <<cfg, main, chan, out>>
 EnvRefuse(w) ==
   /\ Alive /\ wst[w] = "req"
   /\ guardOk' = (guardOk /\ V!MayRequest(cfg, obs, w))
   /\ wst' = [wst EXCEPT ![w] = "refused"] /\ obs' = V!WorkerRefuse(cfg, obs, w)
+  /\ hist' = Append(hist, Ans(w, FALSE, 0))
   /\ UNCHANGED <<cfg, main, cand, chan, out, nreq, granted>>
 WorkerSendErr(w) ==
   /\ Alive /\ wst[w] = "refused"
   /\ chan' = Append(chan, [ok |-> FALSE, p |-> 0]) /\ wst' = [wst EXCEPT ![w] = "sent"]
-  /\ UNCHANGED <<cfg, main, cand, out, obs, nreq, granted, guardOk>>
+  /\ UNCHANGED <<cfg, main, cand, out, obs, nreq, granted, guardOk, hist>>
 \* the main thread takes the FIRST message
 MainRecv ==
   /\ main = "wait" /\ chan # <<>>
   /\ IF Head(chan).ok THEN main' = "printed" /\ out' = Head(chan).p ELSE main' = "failed" /\ UNCHANGED out
-  /\ UNCHANGED <<cfg, wst, cand, chan, obs, nreq, granted, guardOk>>
+  /\ UNCHANGED <<cfg, wst, cand, chan, obs, nreq, granted, guardOk, hist>>
 
 Next ==
   \/ \E p \in 1..K : MainGrant(p) \/ InlineGrant(p) \/ \E w \in Workers : EnvGrant(w, p)
